@@ -142,7 +142,7 @@ func (fr *frame) errorText(e value) value {
 	if it.t == nil {
 		return "<nil>"
 	}
-	if m := fr.i.prog.LookupMethod(it.t, nil, "Error"); m != nil {
+	if m := fr.i.findMethod(it.t, "Error"); m != nil {
 		return call(fr.i, fr, 0, m, []value{it.v})
 	}
 	if n, ok := it.v.(native); ok {
@@ -305,17 +305,17 @@ func (fr *frame) writeTo(w value, s value) {
 		if st, ok := (*p).(structure); ok && it.t != nil {
 			switch it.t.String() {
 			case "*strings.Builder":
-				st[1] = fr.appendStr(st[1], s)
+				st[1] = fr.appendStr(builderString(st, 1), s)
 				return
 			case "*bytes.Buffer":
-				st[0] = fr.appendStr(st[0], s)
+				st[0] = fr.appendStr(builderString(st, 0), s)
 				return
 			}
 		}
 	}
 	// interpreted writer: call its Write method with bytes
 	if it.t != nil {
-		if m := fr.i.prog.LookupMethod(it.t, nil, "Write"); m != nil {
+		if m := fr.i.findMethod(it.t, "Write"); m != nil {
 			call(fr.i, fr, 0, m, []value{it.v, fr.stringToBytes(s)})
 			return
 		}
@@ -368,7 +368,7 @@ func nativeZero(n *types.Named) (value, bool) {
 	case "net/netip.Prefix":
 		return native{netip.Prefix{}}, true
 	case "time.Time":
-		return native{time.Time{}}, true
+		return native{vtime{int64(0)}}, true
 	}
 	return nil, false
 }
@@ -801,7 +801,7 @@ func init() {
 			if sameType(err.t, target.t) && safeEq(err.v, target.v) {
 				return true
 			}
-			m := fr.i.prog.LookupMethod(err.t, nil, "Unwrap")
+			m := fr.i.findMethod(err.t, "Unwrap")
 			if m == nil {
 				return false
 			}
@@ -818,7 +818,7 @@ func init() {
 		if err.t == nil {
 			return iface{}
 		}
-		m := fr.i.prog.LookupMethod(err.t, nil, "Unwrap")
+		m := fr.i.findMethod(err.t, "Unwrap")
 		if m == nil {
 			return iface{}
 		}
@@ -894,3 +894,12 @@ func (fr *frame) insertionSort(n int, less func(i, j int) bool, swap func(i, j i
 
 var _ = sort.Strings
 var _ = errors.New
+
+// findMethod returns the exported method name of type t, or nil.
+func (i *interpreter) findMethod(t types.Type, name string) *ssa.Function {
+	sel := i.prog.MethodSets.MethodSet(t).Lookup(nil, name)
+	if sel == nil {
+		return nil
+	}
+	return i.prog.MethodValue(sel)
+}
